@@ -13,12 +13,14 @@ UNITS_STUBS = [
     ('scinumtools.units.magnitude', 'float', stubs.Float),
     ('scinumtools.units.quantity', 'float', stubs.Float),
     ('scinumtools.units.unit_solver', 'float', stubs.Float),
+    ('scinumtools.units.fraction', 'float', stubs.Float),
+    ('scinumtools.units.base_units', 'float', stubs.Float),
     ('scinumtools.units.magnitude', 'Decimal', stubs.DecimalStub),
     ('scinumtools.units.quantity', 'Decimal', stubs.DecimalStub),
     ('scinumtools.units.unit_types', 'Decimal', stubs.DecimalStub),
 ]
 UNITS_STUB_TEXT = [
-    "name `float` in scinumtools.units.magnitude / .quantity / .unit_solver is symx.Float (isinstance accepts proxies, float(proxy) is the identity, sentinel numerals map to proxies)",
+    "name `float` in scinumtools.units.magnitude / .quantity / .unit_solver / .fraction / .base_units is symx.Float (isinstance accepts proxies, float(proxy) is the identity, sentinel numerals map to proxies)",
     "name `Decimal` in the same modules and in unit_types is symx.DecimalStub: proxies of flavour SymDec count as decimal.Decimal so the library's Decimal branches run symbolically (the model does not reproduce Decimal's refusal of mixed float arithmetic)",
     "reals stand for binary64 floats: formula errors are found, rounding is outside the claim; counterexamples are replayed in real floats",
 ]
@@ -225,3 +227,79 @@ def ref_parse(expr, sentinels=None):
     if pos != len(s):
         raise ValueError('trailing')
     return r
+
+
+# ---------------------------------------------------------------------------
+# stand-alone reference evaluator (pure python; exec'd here and pasted into scenario preambles / replay scripts)
+# ---------------------------------------------------------------------------
+REF_SRC = r'''
+import re as _re, fractions as _fr
+from scinumtools.units.settings import UNIT_PREFIXES as _P, UNIT_STANDARD as _U
+def ref_resolve(text):
+    hits = []
+    for base in _U.keys():
+        if not text.endswith(base): continue
+        pre = text[:len(text) - len(base)]
+        if pre == '': hits.append(('', base)); continue
+        if pre not in _P.keys(): continue
+        adm = _U[base].prefixes
+        if adm is True or (isinstance(adm, list) and pre in adm): hits.append((pre, base))
+    if len(hits) != 1: raise KeyError(text)
+    return hits[0]
+def ref_atom(text):
+    text = text.strip()
+    if _re.match(r'^-?[0-9.]+(e[0-9+-]+)?$', text):
+        return float(text), [_fr.Fraction(0)] * 8, {}
+    m = _re.search(r'[0-9:+-]+$', text)
+    e = _fr.Fraction(1)
+    if m and m.start() > 0:
+        parts = m.group().split(':')
+        e = _fr.Fraction(int(parts[0]), int(parts[1]) if len(parts) > 1 else 1)
+        text = text[:m.start()]
+    pre, base = ref_resolve(text)
+    f = float(_U[base].magnitude) * (float(_P[pre].magnitude) if pre else 1.0)
+    dims = [(_fr.Fraction(*d) if isinstance(d, tuple) else _fr.Fraction(d)) * e for d in _U[base].dimensions]
+    return f ** float(e), dims, {(pre, base): e}
+def ref_units(expr):
+    """unit expression text -> (factor float, [8 Fractions], {(prefix, base): Fraction exponent})"""
+    if not expr: return 1.0, [_fr.Fraction(0)] * 8, {}
+    s, pos = expr, 0
+    def comb(a, b, sign):
+        f = a[0] * b[0] if sign == 1 else a[0] / b[0]
+        d = [x + sign * y for x, y in zip(a[1], b[1])]
+        ex = dict(a[2])
+        for k, e in b[2].items(): ex[k] = ex.get(k, 0) + sign * e
+        return f, d, ex
+    def pexpr():
+        nonlocal pos
+        left = pterm()
+        while pos < len(s) and s[pos] in '*/':
+            op = s[pos]; pos += 1
+            left = comb(left, pterm(), 1 if op == '*' else -1)
+        return left
+    def pterm():
+        nonlocal pos
+        if pos < len(s) and s[pos] == '(':
+            pos += 1
+            r = pexpr()
+            assert s[pos] == ')'; pos += 1
+            return r
+        st = pos
+        while pos < len(s) and s[pos] not in '*/()': pos += 1
+        return ref_atom(s[st:pos])
+    r = pexpr()
+    assert pos == len(s)
+    return r[0], r[1], {k: e for k, e in r[2].items() if e != 0}
+def lib_exps(q):
+    """exponents the library reports, keyed like ref_units: {(prefix, base): Fraction}"""
+    out = {}
+    for unitid, e in q.baseunits.value().items():
+        pre, _, base = unitid.rpartition(':') if ':' in unitid and not unitid.startswith('#') else ('', '', unitid)
+        out[(pre, base)] = _fr.Fraction(*e) if isinstance(e, tuple) else _fr.Fraction(e)
+    return out
+def lib_dims(q):
+    return [(_fr.Fraction(*d) if isinstance(d, tuple) else _fr.Fraction(d)) for d in q.baseunits.dimensions.value()]
+'''
+_refns = {}
+exec(REF_SRC, _refns)
+ref_units = _refns['ref_units']
